@@ -6,6 +6,26 @@ ALL = ["C%02d" % i for i in range(1, 21)]
 
 # id -> (technique, level text, level note, design ref)
 CLAIMED = {
+ "C14": ("proptest rich multi-module inputs through pyxis::build on disk; file-set and exact item-set oracle (syn), marker-const placement for backend text; injected name collisions must be errors",
+         "Generated-input search: the output directory must hold exactly one file per module, each with exactly the declared structs/enums/vftable structs/accessors; rust prologue/epilogue markers in order and position, other backends absent; every injected duplicate definition (type/type, type/enum, type/extern, user <T>Vftable) must be an error. Exploration.",
+         "Backend text is observed through uniquely named marker consts placed in it by the generator.",
+         "DESIGN.md §4 C14"),
+ "C16": ("proptest rich programs; syn visitor over every bare-fn type of the unnormalised output against the declared/default convention per slot and wrapper; unknown names must be rejected",
+         "Generated-input search: each vftable slot and each address-bound wrapper must carry the declared calling convention or the documented default, placeholder slots thiscall, consistent through inheritance; 18 near-miss names must be rejected and the 7 real ones accepted. Exploration.",
+         "Method surface (which wrappers exist on which type) comes from the reference model in refmodel.rs.",
+         "DESIGN.md §4 C16"),
+ "C17": ("proptest rich programs with random visibility/marker/doc assignment; syn view of the output compared with the reference placement; multiset equality of all doc lines per file",
+         "Generated-input search: visibility, derives, packing and doc placement of every emitted counterpart are compared with the declaration, and the multiset of doc lines found anywhere in each file must equal the expected one (so docs cannot leak to other items). Exploration.",
+         "Docs on unnamed `_` fields and trailing empty doc lines are not generated (DESIGN.md §2.1).",
+         "DESIGN.md §4 C17"),
+ "C19": ("proptest metamorphic pairs: accepted program vs the same program with changes outside the observed module's use-closure; byte equality of the observed module's file",
+         "Generated-input search over pairs of input sets that differ only in definitions unreachable from the observed module (fresh modules and items that reuse short names the module uses, removed modules, reordered modules); the observed output file must be byte-identical. Exploration.",
+         "Reachability = transitive closure over `use` paths (the generator only creates cross-module references through imports).",
+         "DESIGN.md §4 C19"),
+ "C20": ("proptest metamorphic pairs: accepted program vs a seeded combination of the nine listed semantics-preserving rewrites; byte equality of every output file",
+         "Generated-input search over (program, rewrite set): explicit<->implicit addresses, unknown<N> gap<->address, added natural size, added index, explicit enum value, respelled numbers, permuted definitions; the rewritten program must be accepted with byte-identical output. Exploration.",
+         "Rewrites are computed with the reference layout model (offsets, natural size, slots).",
+         "DESIGN.md §4 C20"),
  "C01": ("proptest layout programs; rustc offset_of!/size_of const probes as oracle on stable x86-64 (width 8) and nightly i686-pc-windows-msvc (width 4)",
          "Generated-input search with the Rust compiler as layout oracle: for every named field of every emitted struct of every generated, accepted program, a const probe asserts offset_of!(T, f) == the offset the description states (explicit address, else end of predecessor); the probe is type-checked by rustc for a target of the configured pointer width. Exploration.",
          "rustc's layout of repr(C)/packed structs for x86_64-unknown-linux-gnu and i686-pc-windows-msvc is the ground truth; the expected offsets come from the reference model (cross-checked by size_of probes on every field type).",
